@@ -346,3 +346,21 @@ package tengo
 //@   ensures length{C01}: len(args) >= 2 && is(a0, *Array) ==> len(res0.(*Array).Value) == old(len(args[0].(*Array).Value)) + len(args) - 1
 //@   ensures immutable_untouched{C09}: len(args) >= 2 && is(a0, *ImmutableArray) ==> fresh(res0.(*Array).Value)
 //@   assigns args[0].(*Array).Value[*]
+
+// ---------------------------------------------------------------------------
+// indexing (C01)
+// ---------------------------------------------------------------------------
+
+// string indexing is by character: s[i] is the i-th rune of []rune(s)
+//@ func (*String).IndexGet
+//@   props C01
+//@   requires cache: o.runeStr == nil || (len(o.runeStr) == spec.nrunes(o.Value)
+//@                     && (forall i in 0..len(o.runeStr) :: o.runeStr[i] == spec.runeat(o.Value, i)))
+//@   assigns o.runeStr
+//@   let n = old(spec.nrunes(o.Value))
+//@   ensures badindex: !is(index, *Int) ==> err == ErrInvalidIndexType
+//@   ensures inrange: is(index, *Int) && 0 <= index.(*Int).Value && index.(*Int).Value < n
+//@              ==> err == nil && is(res, *Char) && res.(*Char).Value == spec.runeat(old(o.Value), index.(*Int).Value)
+//@   ensures outofrange: is(index, *Int) && (index.(*Int).Value < 0 || index.(*Int).Value >= n) ==> err == nil && res == UndefinedValue
+//@   ensures cache_kept: o.runeStr == nil || (len(o.runeStr) == spec.nrunes(o.Value)
+//@                     && (forall i in 0..len(o.runeStr) :: o.runeStr[i] == spec.runeat(o.Value, i)))
